@@ -31,7 +31,7 @@ VARIANTS = {
              ["-fsanitize=memory"], ["-O1", "-fsanitize=memory", "-fsanitize-recover=memory"]),
     "wrap": ("gcc", ["-O2"],
              ["-Wl,--wrap=malloc,--wrap=mmap,--wrap=mremap,--wrap=munmap,--wrap=open,"
-              "--wrap=fstat,--wrap=close,--wrap=fopen,--wrap=fwrite,--wrap=fclose,--wrap=free"],
+              "--wrap=fstat,--wrap=close,--wrap=fopen,--wrap=fwrite,--wrap=fclose"],
              ["-O2", "-DHEXEC_WRAP"]),
     "tsan": ("gcc", ["-O1", "-fsanitize=thread"], ["-fsanitize=thread", "-pthread"],
              ["-O1", "-fsanitize=thread"]),
@@ -143,7 +143,8 @@ def build_harness(variant, harness_files, exe, extra_link=(), extra_cflags=(), o
 
 
 def hexec(variant="plain"):
-    return build_harness(variant, ["hexec.c", "state_dump.c"], "hexec")
+    files = ["hexec.c", "state_dump.c"] + (["wrap_libc.c"] if variant == "wrap" else [])
+    return build_harness(variant, files, "hexec")
 
 
 def asmline():
